@@ -232,16 +232,12 @@ func (l *LSTM) Apply(inputs []tensor.Tensor) ([]tensor.Tensor, error) {
 		return nil, err
 	}
 
-	outputMap := map[string]tensor.Tensor{
-		"Y": Y, "Y_h": Yh, "Y_c": Yc,
+	allOutputs := []tensor.Tensor{Y, Yh, Yc}
+	if len(l.outputs) > len(allOutputs) {
+		return nil, ops.ErrInvalidTensor("lstm has at most 3 outputs", l)
 	}
 
-	result := []tensor.Tensor{}
-	for _, outputName := range l.outputs {
-		result = append(result, outputMap[outputName])
-	}
-
-	return result, nil
+	return allOutputs[:len(l.outputs)], nil
 }
 
 // ValidateInputs validates the inputs that will be given to Apply for this operator.
